@@ -131,7 +131,7 @@ def site_of(s) -> str:
     return SITE[s if isinstance(s, str) else s[0]] + ".apply"
 
 
-def run_case(h: Harness, step, form, triples, k, mins, ints, floats, tag):
+def run_case(h: Harness, step, form, triples, k, mins, ints, floats, tag, step_obj=None):
     """one application of a step tree: level A (individuals) and level B (count)."""
     ncomps = len(mins)
     rep = StubRep(ncomps)
@@ -141,7 +141,7 @@ def run_case(h: Harness, step, form, triples, k, mins, ints, floats, tag):
     if amb:
         floats = [floats[0] if floats else 0] * 64
     src = TwoStreamSource(ints, floats)
-    res = sc.run_step(sc.real_step(step), problem, rep, src, sc.as_form(form, inds, problem), k)
+    res = sc.run_step(step_obj if step_obj is not None else sc.real_step(step), problem, rep, src, sc.as_form(form, inds, problem), k)
     replay = {"step": sc.step_str(step), "form": form, "population": sc.enc_triples(triples), "k": k, "minimize": mins,
               "ints": ints, "floats": floats[:8]}
     nontrivial = len(triples) >= 2 and k >= 1
@@ -232,6 +232,23 @@ def check_compositions(h: Harness):
         for kd in sc.kinds(step):
             h.count(f"composition:has-{kd}")
         run_case(h, step, form, triples, k, mins, ints, floats, "composition")
+
+
+def check_reuse(h: Harness):
+    """the SAME step object applied again with another target size / population (a population-size sweep, a
+    sub-step placed in two slices): every application is judged like a first one (the model is stateless)"""
+    rng = h.rng
+    for _ in range(h.n(150, 4000)):
+        mins = [rng.random() < 0.5 for _ in range(rng.choice([1, 2]))]
+        step = sc.gen_step(rng, rng.choice([1, 2, 2, 3]), mins)
+        obj = sc.real_step(step)
+        for app in range(3):
+            n = rng.randint(2, 12)
+            k = n if rng.random() < 0.6 else rng.randint(0, n)
+            triples = sc.gen_triples(rng, n, len(mins))
+            ints = [rng.randrange(0, 30) for _ in range(120)]
+            floats = [rng.randrange(0, 1000) for _ in range(60)]
+            run_case(h, step, rng.choice(FORMS), triples, k, mins, ints, floats, f"reuse:application-{app + 1}", step_obj=obj)
 
 
 def check_evaluate_step(h: Harness):
@@ -452,6 +469,7 @@ def check_gp_tree(h: Harness):
 def run(h: Harness):
     check_ranges(h)
     check_compositions(h)
+    check_reuse(h)
     check_single_steps(h)
     check_evaluate_step(h)
     check_initialisers(h)
